@@ -30,13 +30,28 @@ TimedTaskScheduler::~TimedTaskScheduler() {
   thread_.join();
 }
 
+namespace {
+// Calls impl->func.  ~TimedTask destroys func once it has set the cancelled flag and then seen
+// inProgress at zero, so the call itself (not only the user function it schedules) is bracketed by
+// inProgress, and func is not touched if the flag is already set.
+void invokeFunc(std::shared_ptr<detail::TimedTaskImpl> impl) {
+  auto* np = impl.get();
+  auto keepAlive = impl; // func may drop the reference it is given before it returns
+  np->inProgress.fetch_add(1, std::memory_order_seq_cst);
+  std::atomic_thread_fence(std::memory_order_seq_cst);
+  if (!(np->flags.load(std::memory_order_seq_cst) & detail::kFFlagsCancelled)) {
+    np->func(std::move(impl));
+  }
+  np->inProgress.fetch_sub(1, std::memory_order_release);
+}
+} // namespace
+
 void TimedTaskScheduler::kickOffTask(std::shared_ptr<detail::TimedTaskImpl> next, double curTime) {
   size_t remaining = next->timesToRun.fetch_sub(1, std::memory_order_acq_rel);
   if (remaining == 1) {
-    auto* np = next.get();
-    np->func(std::move(next));
+    invokeFunc(std::move(next));
   } else if (remaining > 1) {
-    next->func(next);
+    invokeFunc(next);
 
     if (next->steady) {
       next->nextAbsTime += next->period;
